@@ -607,7 +607,7 @@ class Hypergraph:
         self._edge_attr[uid] = self._edge_attr_dict_factory()
         self._edge_attr[uid].update(attr)
 
-        if idx:  # set self._edge_uid correctly
+        if idx is not None:  # set self._edge_uid correctly
             update_uid_counter(self, idx)
 
     def add_edges_from(self, ebunch_to_add, **attr):
@@ -796,11 +796,12 @@ class Hypergraph:
                 self._edge_attr[idx].update(attr)
                 self._edge_attr[idx].update(eattr)
 
+                if format2 or format4:
+                    update_uid_counter(self, idx)
+
             try:
                 e = next(new_edges)
             except StopIteration:
-                if format2 or format4:
-                    update_uid_counter(self, idx)
                 break
 
     def add_weighted_edges_from(self, ebunch, weight="weight", **attr):
@@ -1090,6 +1091,7 @@ class Hypergraph:
         if edge not in self._edge:
             self._edge[edge] = set()
             self._edge_attr[edge] = {}
+            update_uid_counter(self, edge)
         if node not in self._node:
             self._node[node] = set()
             self._node_attr[node] = {}
